@@ -16,6 +16,7 @@ import io
 import json
 import keyword
 import os
+import re
 import struct
 import sys
 
@@ -282,6 +283,18 @@ def gen_cases(rng, tier):
         if route == "jsonkeys" and not fields:
             route = "api"
         cases.append(_desc_case(tname, fields, route))
+    # the deprecated string-only definition (`fields=None`: "name\n type field;\n ..." parsed by parse_def), through the
+    # constructor, a descriptor frame `(text, nil)` and a JSON descriptor line `[text, null]`, for every definition that
+    # parse_def splits back into exactly (name, fields)
+    rd = rng.fork("defstring")
+    extra = []
+    for c in cases:
+        if c["kind"] == "desc" and c["route"] in ("api", "stream", "json") and rd.chance(30):
+            name, fields = dec_str(c["name"]), [(dec_str(t), dec_str(n)) for t, n in c["fields"]]
+            text = _defstring(name, fields)
+            if text is not None:
+                extra.append(dict(c, defstring=True))
+    cases += extra
     # malformed kinds (not modelled): bytes / None / numbers / wrong arity
     for raw in [["bytes-name"], ["none-name"], ["int-name"], ["bytes-field"], ["none-field"], ["int-field"],
                 ["arity1"], ["arity3"], ["fields-string"], ["fields-none"], ["list-name"], ["bytes-type"], ["none-type"]]:
@@ -469,22 +482,60 @@ def _check_source(base, src, tname, fields):
     return out
 
 
+def _ref_parse_def(text):
+    """what a definition text means (independent of the library): first non-empty line = type name, the others
+    `<type> <field>[;]`"""
+    name, fields = None, []
+    for line in text.split("\n"):
+        line = line.strip()
+        if not line:
+            continue
+        if not name:
+            name = line
+        else:
+            parts = re.split(r"\s+", line.rstrip(";"))
+            if len(parts) != 2:
+                return None
+            fields.append((parts[0], parts[1]))
+    return name, fields
+
+
+def _defstring(name, fields):
+    """definition text for (name, fields), or None when the text form cannot express it faithfully"""
+    if not name or not fields:
+        return None
+    text = name + "\n" + "".join(f"    {t} {n};\n" for t, n in fields)
+    try:
+        text.encode("utf-8")
+    except UnicodeEncodeError:
+        return None
+    return text if _ref_parse_def(text) == (name, list(fields)) else None
+
+
 def _stream_bytes(name, fields):
     import msgpack
+    if fields is None:
+        inner = msgpack.packb((2, (name, None)), use_bin_type=True, unicode_errors="surrogatepass")
+        frame = msgpack.packb(msgpack.ExtType(14, inner), use_bin_type=True)
+        hdr = msgpack.packb(b"RECORDSTREAM\n", use_bin_type=True)
+        return struct.pack(">I", len(hdr)) + hdr + struct.pack(">I", len(frame)) + frame
     inner = msgpack.packb((2, (name, tuple((t, n) for t, n in fields))), use_bin_type=True, unicode_errors="surrogatepass")
     frame = msgpack.packb(msgpack.ExtType(14, inner), use_bin_type=True)
     hdr = msgpack.packb(b"RECORDSTREAM\n", use_bin_type=True)
     return struct.pack(">I", len(hdr)) + hdr + struct.pack(">I", len(frame)) + frame
 
 
-def _deliver(base, route, name, fields):
+def _deliver(base, route, name, fields, defstring=False):
     """-> descriptor object accepted by the library (or raises)"""
     from flow.record import RecordDescriptor
+    text = _defstring(name, fields) if defstring else None
     if route == "api":
+        if text is not None:
+            return RecordDescriptor(text, None)
         return RecordDescriptor(name, [(t, n) for t, n in fields])
     if route == "stream":
         from flow.record.stream import RecordStreamReader
-        rd = RecordStreamReader(io.BytesIO(_stream_bytes(name, fields)))
+        rd = RecordStreamReader(io.BytesIO(_stream_bytes(text, None) if text is not None else _stream_bytes(name, fields)))
         for _ in rd:
             pass
         ds = list({id(d): d for d in rd.packer.descriptors.values()}.values())   # registered by identifier and by name
@@ -493,7 +544,8 @@ def _deliver(base, route, name, fields):
         return ds[0]
     if route == "json":
         from flow.record.adapter.jsonfile import JsonfileReader
-        line = json.dumps({"_type": "recorddescriptor", "_data": [name, [[t, n] for t, n in fields]]}) + "\n"
+        line = json.dumps({"_type": "recorddescriptor",
+                           "_data": [text, None] if text is not None else [name, [[t, n] for t, n in fields]]}) + "\n"
         rd = JsonfileReader(io.BytesIO(line.encode()))
         for _ in rd:
             pass
@@ -601,7 +653,7 @@ def run_real(case):
         name, fields = dec_str(case["name"]), [(dec_str(t), dec_str(n)) for t, n in case["fields"]]
         route = case["route"]
         try:
-            d = _deliver(base, route, name, fields)
+            d = _deliver(base, route, name, fields, case.get("defstring", False))
             obs = {"accepted": True, "dname": enc_str(d.name), "slots": [enc_str(s) for s in d.recordType.__slots__],
                    "tuples": [[enc_str(t), enc_str(n)] for t, n in d.get_field_tuples()],
                    "is_record": issubclass(d.recordType, base.Record),
